@@ -110,7 +110,7 @@ Qed.
    current entry; a class with a backup is registered with the report *)
 Definition orig_of (s : cstate) (c f : nat) : option V :=
   match bk s c f with Some x => x | None => own s c f end.
-Definition registered (s : cstate) : Prop := forall c f, bk s c f <> None -> ov s c = true.
+Definition registered (s : cstate) : Prop := forall c f, bk s c f <> None -> exists r, ov s r c = true.
 
 Lemma override1_orig c s fv c' f' : orig_of (override1 c s fv) c' f' = orig_of s c' f'.
 Proof.
@@ -158,18 +158,18 @@ Qed.
 Lemma cstep_orig s o : registered s ->
   (forall c f, orig_of (cstep s o) c f = orig_of s c f) /\ registered (cstep s o).
 Proof.
-  intros Hreg. destruct o as [c fields|]; cbn [cstep].
+  intros Hreg. destruct o as [r c fields|r]; cbn [cstep].
   - split.
     + intros c' f'. unfold orig_of at 1. cbn [own bk]. apply fold_override_orig.
     + intros c' f' H. cbn [bk ov] in *. apply fold_override_bk in H.
-      rewrite fold_override_ov. destruct (Nat.eqb_spec c c'); [reflexivity|].
-      destruct H as [H|H]; [now apply (Hreg c' f')|congruence].
+      rewrite fold_override_ov. unfold upd2. destruct (Nat.eqb_spec c c') as [->|Hne].
+      * exists r. now rewrite !Nat.eqb_refl.
+      * destruct H as [H|H]; [|congruence]. destruct (Hreg c' f' H) as [r' Hr']. exists r'.
+        rewrite andb_false_r. exact Hr'.
   - split.
-    + intros c f. unfold orig_of. cbn [own bk]. destruct (ov s c) eqn:E; [reflexivity|].
-      destruct (bk s c f) eqn:Eb; [|reflexivity].
-      exfalso. assert (ov s c = true) by (apply (Hreg c f); congruence). congruence.
-    + intros c f H. cbn [bk] in H. destruct (ov s c) eqn:E; [congruence|].
-      exfalso. assert (ov s c = true) by (apply (Hreg c f); exact H). congruence.
+    + intros c f. unfold orig_of. cbn [own bk]. destruct (ov s r c) eqn:E; reflexivity.
+    + intros c f H. cbn [bk ov] in *. destruct (ov s r c) eqn:E; [congruence|].
+      destruct (Hreg c f H) as [r' Hr']. exists r'. destruct (Nat.eqb_spec r r') as [->|_]; [congruence|exact Hr'].
 Qed.
 
 Lemma crun_orig ops : forall s, registered s ->
@@ -181,19 +181,73 @@ Proof.
   rewrite H3. apply H1.
 Qed.
 
-(* after ANY history of overrides and clears, a clear leaves every class's own attributes exactly as they were
-   before the first override - hence every inherited lookup as well *)
-Theorem override_clear_restores s0 ops :
+Lemma clean_registered s0 : (forall c f, bk s0 c f = None) -> registered s0.
+Proof. intros Hclean c f H. rewrite Hclean in H. congruence. Qed.
+
+(* (1) per report: after ANY history of overrides and clears on ANY reports, clearing report r leaves every class that was
+   overridden through r (since r's last clear) with exactly the own attributes it had before the first override *)
+Theorem clear_restores_the_reports_classes s0 ops r :
   (forall c f, bk s0 c f = None) ->
-  forall c f, own (cstep (crun s0 ops) Clear) c f = own s0 c f.
+  forall c, ov (crun s0 ops) r c = true -> forall f, own (cstep (crun s0 ops) (Clear r)) c f = own s0 c f.
 Proof.
-  intros Hclean c f.
-  assert (Hreg : registered s0) by (intros c' f' H; rewrite Hclean in H; congruence).
-  destruct (crun_orig ops s0 Hreg) as [Ho Hr].
-  cbn [cstep own]. specialize (Ho c f). unfold orig_of in Ho. rewrite (Hclean c f) in Ho.
-  destruct (ov (crun s0 ops) c) eqn:E; [exact Ho|].
-  destruct (bk (crun s0 ops) c f) eqn:Eb; [|exact Ho].
-  exfalso. assert (ov (crun s0 ops) c = true) by (apply (Hr c f); congruence). congruence.
+  intros Hclean c Hov f.
+  destruct (crun_orig ops s0 (clean_registered _ Hclean)) as [Ho _].
+  cbn [cstep own]. rewrite Hov. specialize (Ho c f). unfold orig_of in Ho. rewrite (Hclean c f) in Ho. exact Ho.
+Qed.
+
+(* (2) once every report that holds a registration has been cleared (in any order), every class is as it was *)
+Lemma clear_all_restores rs : forall s, registered s -> (forall r c, ov s r c = true -> In r rs) ->
+  forall c f, own (crun s (map Clear rs)) c f = orig_of s c f.
+Proof.
+  induction rs as [|r rs IH]; intros s Hreg Hsup c f.
+  - cbn. unfold orig_of. destruct (bk s c f) eqn:Eb; [|reflexivity].
+    destruct (Hreg c f) as [r Hr]; [congruence|]. destruct (Hsup r c Hr).
+  - cbn [map crun fold_left]. change (fold_left cstep (map Clear rs) (cstep s (Clear r))) with (crun (cstep s (Clear r)) (map Clear rs)).
+    destruct (cstep_orig s (Clear r) Hreg) as [H1 H2]. rewrite IH; [apply H1|exact H2|].
+    intros r' c' H. cbn [cstep ov] in H. destruct (Nat.eqb_spec r r') as [->|Hne]; [discriminate|].
+    destruct (Hsup r' c' H) as [E|E]; [congruence|exact E].
+Qed.
+
+Definition report_of (o : cop) : nat := match o with Override r _ _ => r | Clear r => r end.
+
+Lemma support_step rs s o : (forall r c, ov s r c = true -> In r rs) -> In (report_of o) rs ->
+  forall r c, ov (cstep s o) r c = true -> In r rs.
+Proof.
+  intros Hsup Hin r c H. destruct o as [r0 c0 fields|r0]; cbn [cstep ov report_of] in *.
+  - rewrite fold_override_ov in H. unfold upd2 in H. destruct (Nat.eqb_spec r0 r) as [->|_]; [exact Hin|].
+    cbn [andb] in H. now apply (Hsup r c).
+  - destruct (Nat.eqb r0 r); [discriminate|]. now apply (Hsup r c).
+Qed.
+
+Lemma support_run rs ops : forall s, (forall r c, ov s r c = true -> In r rs) -> Forall (fun o => In (report_of o) rs) ops ->
+  forall r c, ov (crun s ops) r c = true -> In r rs.
+Proof.
+  induction ops as [|o ops IH]; intros s Hsup Hall; cbn [crun fold_left]; [exact Hsup|].
+  inversion Hall as [|? ? Ho Hrest]; subst. apply IH; [|exact Hrest]. now apply support_step.
+Qed.
+
+Theorem clearing_every_report_restores s0 ops rs :
+  (forall c f, bk s0 c f = None) -> (forall r c, ov s0 r c = false) ->
+  Forall (fun o => In (report_of o) rs) ops ->
+  forall c f, own (crun (crun s0 ops) (map Clear rs)) c f = own s0 c f.
+Proof.
+  intros Hclean Hov Hall c f.
+  destruct (crun_orig ops s0 (clean_registered _ Hclean)) as [Ho Hr].
+  rewrite clear_all_restores; [|exact Hr|].
+  - rewrite Ho. unfold orig_of. now rewrite Hclean.
+  - apply support_run; [|exact Hall]. intros r c' H. rewrite Hov in H. discriminate.
+Qed.
+
+(* (3) the one-report case: after ANY history of overrides and clears through one report, a clear of it leaves every class's
+   own attributes exactly as they were before the first override - hence every inherited lookup as well *)
+Theorem override_clear_restores s0 ops r :
+  (forall c f, bk s0 c f = None) -> (forall r c, ov s0 r c = false) ->
+  Forall (fun o => report_of o = r) ops ->
+  forall c f, own (cstep (crun s0 ops) (Clear r)) c f = own s0 c f.
+Proof.
+  intros Hclean Hov Hall c f.
+  apply (clearing_every_report_restores s0 ops [r] Hclean Hov).
+  eapply Forall_impl; [|exact Hall]. intros o Ho. left. now symmetry.
 Qed.
 
 Lemma lookup_ext parent s s' fuel : (forall c f, own s c f = own s' c f) ->
@@ -203,18 +257,26 @@ Proof.
   destruct (own s' c f); [reflexivity|]. destruct (Nat.eqb c 0); [reflexivity|apply IH].
 Qed.
 
-Theorem override_clear_restores_lookup parent fuel s0 ops :
-  (forall c f, bk s0 c f = None) ->
-  forall c f, lookup parent (cstep (crun s0 ops) Clear) fuel c f = lookup parent s0 fuel c f.
-Proof. intros H. apply lookup_ext. now apply override_clear_restores. Qed.
+Theorem override_clear_restores_lookup parent fuel s0 ops r :
+  (forall c f, bk s0 c f = None) -> (forall r c, ov s0 r c = false) ->
+  Forall (fun o => report_of o = r) ops ->
+  forall c f, lookup parent (cstep (crun s0 ops) (Clear r)) fuel c f = lookup parent s0 fuel c f.
+Proof. intros H1 H2 H3. apply lookup_ext. now apply override_clear_restores. Qed.
 
 (* non-vacuity: Parent.override; Child.override; clear  (the history that the unrepaired code got wrong) *)
 Definition ex_s0 : cstate :=
   mkC (fun c f => match c, f with 1, 0 => Some 1%Z | 2, 0 => Some 2%Z | _, _ => None end%nat)
-      (fun _ _ => None) (fun _ => false).
+      (fun _ _ => None) (fun _ _ => false).
 Example ex_parent_child :
-  let s := crun ex_s0 [Override 1 [(0%nat, 7%Z)]; Override 2 [(0%nat, 8%Z)]; Override 3 [(0%nat, 9%Z)]] in
+  let s := crun ex_s0 [Override 0 1 [(0%nat, 7%Z)]; Override 0 2 [(0%nat, 8%Z)]; Override 0 3 [(0%nat, 9%Z)]] in
   own s 1%nat 0%nat = Some 7%Z /\ own s 3%nat 0%nat = Some 9%Z /\
-  own (cstep s Clear) 1%nat 0%nat = Some 1%Z /\ own (cstep s Clear) 2%nat 0%nat = Some 2%Z
-  /\ own (cstep s Clear) 3%nat 0%nat = None.
+  own (cstep s (Clear 0)) 1%nat 0%nat = Some 1%Z /\ own (cstep s (Clear 0)) 2%nat 0%nat = Some 2%Z
+  /\ own (cstep s (Clear 0)) 3%nat 0%nat = None.
+Proof. vm_compute. repeat split; reflexivity. Qed.
+
+(* two reports: the same attribute overridden through report 0 and then through report 1; clearing report 1 restores it *)
+Example ex_two_reports :
+  let s := crun ex_s0 [Override 0 1 [(0%nat, 7%Z)]; Override 1 1 [(0%nat, 8%Z)]] in
+  own s 1%nat 0%nat = Some 8%Z /\ ov s 1%nat 1%nat = true /\
+  own (cstep s (Clear 1)) 1%nat 0%nat = Some 1%Z /\ own (cstep (cstep s (Clear 1)) (Clear 0)) 1%nat 0%nat = Some 1%Z.
 Proof. vm_compute. repeat split; reflexivity. Qed.
